@@ -95,6 +95,8 @@ META_SETS = [
     (np.uint64(2 ** 63), np.array([[1.5, 2.5], [3.5, 4.5]])),
     ('rec\udcff.wav', {'path': ['x\ud800', 'ok']}),      # lone surrogates (os.fsdecode of undecodable names)
     (np.array(7), np.array([True, False])),                # 0-d array, bool array
+    (1000, 2555),                                          # texts of equal length: a torn in-place rewrite stays valid JSON
+    ('abcd', 'wxyz'),
     ([np.array([1, 2]), {'a': np.float32(0.5)}], {'m': np.array([[1, 0], [0, 1]], dtype='uint8'), 'z': np.array(2.5)}),
 ]
 KEYNAMES = [{'k1': 'k1', 'k2': 'k2'}, {'k1': 'fs', 'k2': 'clé ☃'}, {'k1': 'a b', 'k2': ''}]
